@@ -748,12 +748,11 @@ fn check_c02(ch: &mut Chunk<'_>, t: RegLan, rf: &Dfa, shallow: bool, rep: &mut R
         }
     }
     // try_compile with the exact bound must succeed and be the same language
+    // C02 speaks about try_compile only "when it returns Some" (whether it must is C19's business)
     match ch.re.try_compile(t, n) {
-        None => msgs.push(format!("try_compile(e, {}) returned None although compile(e) has {} states", n, n)),
+        None => rep.inc("try_compile_none_at_exact_bound"),
         Some(b) => {
-            if b.num_states() != n {
-                msgs.push(format!("try_compile(e, {}) has {} states, compile(e) has {}", n, b.num_states(), n));
-            }
+            rep.inc("try_compile_automata");
             check_totality(&b, u, rep, &mut msgs);
             if msgs.is_empty() {
                 check_auto_language(u, &b, rf, "try_compile", rep, &mut msgs);
@@ -1298,8 +1297,9 @@ fn check_c03(ch: &mut Chunk<'_>, t: RegLan, rf: &Dfa, shallow: bool, rep: &mut R
     if !comp_empty {
         exp_ids.push(ClassId::Complement);
     }
-    if ids != exp_ids {
-        msgs.push(format!("class_ids() = {:?}, expected {:?}", ids, exp_ids));
+    // the listing must consist of exactly the non-empty classes (its order is not prescribed)
+    if ids.len() != exp_ids.len() || !exp_ids.iter().all(|e| ids.iter().filter(|x| *x == e).count() == 1) {
+        msgs.push(format!("class_ids() = {:?}, expected the classes {:?}", ids, exp_ids));
         return msgs;
     }
     if ids.len() >= 2 {
